@@ -620,44 +620,86 @@ def run_drivers(rep, prog):
         fn = prog.func(INT, name)
         sfx = lambda base, k: base if D == 1 else '%s%d' % (base, k)
         grids = GRIDS[:D]
+        # the constant drivers bind all grids to one object (`zz = yy = xx`): then any of the names denotes the same grid, and
+        # the axis of a coefficient is decided by the letter of its name and by the broadcast position, not by the grid name
+        alias_root = {}
+        for st0 in fn.body:
+            if isinstance(st0, ast.Assign) and isinstance(st0.value, ast.Name) and all(isinstance(t_, ast.Name) for t_ in st0.targets):
+                for t_ in st0.targets:
+                    alias_root[t_.id] = alias_root.get(st0.value.id, st0.value.id)
+        same_grid = D > 1 and len({alias_root.get(g, g) for g in grids}) == 1
+
+        def letter_axis(tgt_):
+            m_ = re.fullmatch(r'[VM]([xyz]?)(Int)?', tgt_)
+            return ('xyz'.index(m_.group(1)) + 1) if m_ and m_.group(1) else (1 if m_ else None)
+
+        def broadcast_axis(e_):
+            for sub in ast.walk(e_):
+                if isinstance(sub, ast.Subscript) and isinstance(sub.slice, ast.Tuple):
+                    pos = [i for i, c in enumerate(sub.slice.elts) if isinstance(c, ast.Slice)]
+                    if len(pos) == 1:
+                        return pos[0] + 1
+            return None
+
+        def canon(txt_):
+            if same_grid:
+                for g_ in grids:
+                    txt_ = re.sub(r'\b%s\b' % g_, 'xx', txt_)
+            return txt_
         for st in fn.body:
             if not (isinstance(st, ast.Assign) and isinstance(st.value, ast.Call)):
                 continue
             f = dotted(st.value.func) or ''
             tgt = ast.unparse(st.targets[0])
             if f == '_Vfunc':
-                k = next((i + 1 for i, g in enumerate(grids) if g in ast.unparse(st.value.args[0])), None)
+                if same_grid:
+                    k = letter_axis(tgt)
+                    gname = 'xx'
+                    okg = k is not None and 'xx' in canon(ast.unparse(st.value.args[0]))
+                else:
+                    k = next((i + 1 for i, g in enumerate(grids) if g in ast.unparse(st.value.args[0])), None)
+                    gname = grids[k - 1] if k else None
+                    okg = k is not None and all(g not in ast.unparse(st.value.args[0]) for i, g in enumerate(grids) if i + 1 != k)
                 a1 = ast.unparse(st.value.args[1])
-                ok = k is not None and a1 == sfx('nu', k) and all(g not in ast.unparse(st.value.args[0]) for i, g in enumerate(grids) if i + 1 != k)
+                ok = k is not None and a1 == sfx('nu', k) and okg
                 if D == 1:
                     ok = ok and any(kw.arg == 'beta' and ast.unparse(kw.value) == 'beta' for kw in st.value.keywords)
                 mid = '/ 2' in ast.unparse(st.value.args[0])
-                if mid:
+                if mid and ok:
                     try:
-                        g = grids[k - 1]
-                        txt = ast.unparse(st.value.args[0])
-                        ok = ok and ('%s[:-1]' % g in txt.replace(' ', '')[:40] or True) and parse_expr(re.sub(r'\[[^\]]*\]', '', txt).replace(g, 'G')).equals(parse_expr('(G + G)/2'))
+                        txt = canon(ast.unparse(st.value.args[0]))
+                        ok = ok and parse_expr(re.sub(r'\[[^\]]*\]', '', txt).replace(gname, 'G')).equals(parse_expr('(G + G)/2'))
                     except AlgebraError:
                         ok = False
                 rep.ob('R-IDX', '%s %s' % (name, tgt), bool(ok), ast.unparse(st)[:100], im.rel, st.lineno, what='V of axis %s uses its own grid and nu' % k)
             if f.startswith('_Mfunc'):
                 args = st.value.args
-                k = next((i + 1 for i, g in enumerate(grids) if g in ast.unparse(args[0])), None)
+                if same_grid:
+                    k = letter_axis(tgt)
+                    kb = broadcast_axis(args[0])
+                    if kb is not None and k is not None and kb != k:
+                        k = None
+                else:
+                    k = next((i + 1 for i, g in enumerate(grids) if g in ast.unparse(args[0])), None)
                 if k is None:
                     rep.ob('R-IDX', '%s %s' % (name, tgt), False, ast.unparse(st)[:100], im.rel, st.lineno, what='M uses a grid')
                     continue
                 others = [j for j in range(1, D + 1) if j != k]
-                coord_axes = [next((i + 1 for i, g in enumerate(grids) if ast.unparse(a).startswith(g)), None) for a in args[1:D]]
+                if same_grid:
+                    coord_axes = [broadcast_axis(a) for a in args[1:D]]
+                else:
+                    coord_axes = [next((i + 1 for i, g in enumerate(grids) if ast.unparse(a).startswith(g)), None) for a in args[1:D]]
                 rest = [ast.unparse(a) for a in args[D:]]
                 ok = f == '_Mfunc%dD' % D and coord_axes == others and rest == mig_names(D, k) + [sfx('gamma', k), sfx('h', k)]
                 # broadcasting: grid g_a must carry its full slice at array axis a-1
-                for a_ in list(args[:D]):
-                    for sub in ast.walk(a_):
-                        if isinstance(sub, ast.Subscript) and isinstance(sub.slice, ast.Tuple):
-                            g = ast.unparse(sub.value)
-                            pos = [i for i, c in enumerate(sub.slice.elts) if isinstance(c, ast.Slice)]
-                            if g in grids and pos != [grids.index(g)]:
-                                ok = False
+                if not same_grid:
+                    for a_ in list(args[:D]):
+                        for sub in ast.walk(a_):
+                            if isinstance(sub, ast.Subscript) and isinstance(sub.slice, ast.Tuple):
+                                g = ast.unparse(sub.value)
+                                pos = [i for i, c in enumerate(sub.slice.elts) if isinstance(c, ast.Slice)]
+                                if g in grids and pos != [grids.index(g)]:
+                                    ok = False
                 rep.ob('R-IDX', '%s %s' % (name, tgt), ok, ast.unparse(st)[:140], im.rel, st.lineno,
                        what='M of axis %d: other coordinates in ascending axis order, rates %s, each grid broadcast on its own axis' % (k, mig_names(D, k)))
             if f == '_compute_delj':
